@@ -258,10 +258,20 @@ func runAllocBound(rc *RuleCtx) {
 	// is covered by field propagation below (source: BinaryEncoding.DecodeInt32 is NOT a generic
 	// source — it also decodes values); we treat a Store of any int32-decoded value into a field
 	// literally named "size" of an iterator as a count.
+	// positive-control source (overlay fixture only)
+	for _, fn := range w.Funcs {
+		if w.isControlFn(fn) && fn.Name() == "zzControlCountSource" {
+			a.srcIdx[fn] = map[int]bool{0: true}
+			a.bounded[fn] = map[int]bool{}
+		}
+	}
 	changed := true
 	for changed {
 		changed = false
 		for _, fn := range w.Funcs {
+			if w.isControlFn(fn) && fn.Name() == "zzControlCountSource" {
+				continue
+			}
 			for _, b := range fn.Blocks {
 				for _, ins := range b.Instrs {
 					switch x := ins.(type) {
